@@ -127,11 +127,11 @@ func UF(name string, res *Sort, args ...*Term) *Term {
 	sig = append(sig, res)
 	if old, ok := TP.UFs[name]; ok {
 		if len(old) != len(sig) {
-			panic("arity clash for uf " + name)
+			panic(toolErr("a specification function is applied to arguments of different shapes (arity clash for " + name + ")"))
 		}
 		for i := range old {
 			if old[i] != sig[i] {
-				panic(fmt.Sprintf("sort clash for uf %s arg %d: %s vs %s", name, i, old[i], sig[i]))
+				panic(toolErr(fmt.Sprintf("a specification function is applied to arguments of different sorts (%s arg %d: %s vs %s)", name, i, old[i], sig[i])))
 			}
 		}
 	} else {
